@@ -403,6 +403,9 @@ func (c *Ctx) cliInterp(fd *ast.FuncDecl, opts cliOpts) (outs []argOutcome, unde
 			if a := arg(0); a.K == vList {
 				return one(st, cint(int64(len(a.Tup)))), true
 			}
+			if a := arg(0); isTag(a, "nil") {
+				return one(st, cint(0)), true // the nil slice a helper returns for "nothing"
+			}
 			return one(st, unknownV()), true
 		case "strings.HasPrefix":
 			if ok0 && ok1 {
@@ -469,8 +472,15 @@ func (c *Ctx) cliInterp(fd *ast.FuncDecl, opts cliOpts) (outs []argOutcome, unde
 			}
 			_ = target
 			hasWord, hasTail := false, false
-			for _, m := range more {
+			for i, m := range more {
 				if s, ok := strOf(m); ok && s == word {
+					// a word put together from pieces ("-"+letters[i:i+1]) may spell the current word without
+					// being it: that is an element of an expansion, not the word kept as a file argument
+					if 1+i < len(call.Args) && !call.Ellipsis.IsValid() {
+						if be, isB := stripParens(call.Args[1+i]).(*ast.BinaryExpr); isB && be.Op == token.ADD {
+							continue
+						}
+					}
 					hasWord = true
 				}
 				if isTag(m, "args") && m.Data.(string) == "tail" {
@@ -508,7 +518,7 @@ func (c *Ctx) cliInterp(fd *ast.FuncDecl, opts cliOpts) (outs []argOutcome, unde
 				}
 				p.spliced = words
 				return one(st, tagV("args", "all")), true
-			case base.K == vList || (base.K == vUnknown && p.inLoop && isStringSlice(c.typeOf(call)) && !hasTail && !hasWord && allConstStrings(more)):
+			case base.K == vList || (base.K == vUnknown && (p.inLoop || in.depth > 1) && isStringSlice(c.typeOf(call)) && !hasTail && !hasWord && allConstStrings(more)):
 				// building a list of words (the expansion)
 				nl := Value{K: vList, Tup: append([]Value(nil), base.Tup...)}
 				tail := false
